@@ -2,6 +2,7 @@ import Proofs.Lemmas.ForkChoiceSim
 import Proofs.Lemmas.ForkChoiceLock
 import Proofs.Lemmas.ForkChoiceTotal
 import Proofs.Lemmas.ForkChoiceSpecPrune
+import Proofs.Lemmas.ForkChoiceW0Bridge
 import Zrnt.ForkChoice.Spec
 import Zrnt.ForkChoice.Old
 /-!
@@ -50,16 +51,17 @@ theorem updateJustified_returns (fc : FC) (hh : fc.held = false) (I : FI fc) (t 
   | panic => exact fun h => h.elim
   | blocked => exact fun h => h.elim
 
-/-- the same on arrays that are only well formed (malformed insertions), as long as the finalized checkpoint stays -/
-theorem updateJustified_returns_quiet (fc : FC) (hh : fc.held = false) (h : WF fc.pa) (t : Root) (j f : Checkpoint)
-    (b : Option (List Nat)) (hq : f = fc.finalized) :
+/-- the same on ANY reachable array (`WF0` holds after every history whatsoever, `C09.inv_structure`): malformed
+insertions, and prunes of such arrays, included -/
+theorem updateJustified_returns_all (fc : FC) (hh : fc.held = false) (h : WF0 fc.pa) (t : Root) (j f : Checkpoint)
+    (b : Option (List Nat)) :
     fc.updateJustified t j f b ≠ .blocked ∧ fc.updateJustified t j f b ≠ .panic :=
-  updateJustified_returns_wf fc hh h t j f b hq
+  updateJustified_returns0 fc hh h t j f b
 
 /-- non-vacuity: a fresh instance satisfies the hypotheses -/
-example : ∃ fc : FC, fc.held = false ∧ WF fc.pa :=
+example : ∃ fc : FC, fc.held = false ∧ WF0 fc.pa :=
   ⟨{ pa := PA.new 0 (rt 1) 0 0 0 .absent, votes := [], changed := true, spe := 4, balances := [], pin := none,
-     justified := ⟨0, rt 1⟩, finalized := ⟨0, rt 1⟩, held := false }, rfl, wf_new ..⟩
+     justified := ⟨0, rt 1⟩, finalized := ⟨0, rt 1⟩, held := false }, rfl, (wf_new ..).toWF0⟩
 
 /-- The code before commit 38d1471: after a prune that the sink interrupted, `UpdateJustified` could loop forever in `inSubtree`
 (`pr.nodes[i]` is indexed without the offset, the parent walk revisits an index). Witness (replayed on Go:
@@ -246,10 +248,14 @@ theorem post_prune_ops_total (ops : List Op) (ha : Admissible .none ops) : ∀ x
 /-- `witPanic` (failing sink, two finalizing updates) is inside the domain -/
 example : Admissible .none witPanic := admissibleB_sound witPanic .none (by decide +kernel)
 
-/-- no operation of ANY history that leaves the finalized checkpoint alone (malformed insertions included) panics,
-blocks or loops, and the structure invariant holds -/
-theorem no_panic_quiet (ops : List Op) (hq : Quiet .none ops) : MInv (run .none ops).1 :=
-  inv_structure_quiet ops .none trivial hq
+/-- **no_panic**: no operation of ANY history — malformed insertions, any checkpoint updates, prunes of malformed
+arrays, failing sinks — panics, blocks or loops; the weak structure invariant `WF0` holds afterwards. -/
+theorem no_panic (ops : List Op) : MInv0 (run .none ops).1 ∧ ∀ x ∈ (run .none ops).2, x.isFatal = false :=
+  ⟨inv_structure_all ops .none trivial, run_total_all_none ops⟩
+
+/-- non-vacuity: a history with an empty-slot insertion under an unknown root, one below the first slot of its
+root, and two finalizing updates (`W0.witMalformed`); after its first prune `WF` is false (`witMalformed_breaks_WF`) -/
+example : MInv0 (run .none W0.witMalformed).1 := (no_panic W0.witMalformed).1
 
 /-- **Checkpoint updates refine the specification (all admissible histories, finalizing updates included).**
 Every `UpdateJustified` answer of the model — accepted, or refused because the checkpoint is older/equal, unknown,
